@@ -167,7 +167,12 @@ func init() {
 				m := Meta{Case: c, Stage: "utility-evaluate", Input: map[string]interface{}{"request": q.Body}, Key: string(q.JSON()),
 					Trivial: len(q.Biases) == 0}
 				m.GoOut = choice.Result
-				o.Corr(m, L(A("utility-evaluate"), dmpSX(cap.got)), okSX(L(A("ok"), rankingSX(&choice.Result))))
+				// values only, keyed by id: order and links of the ranking belong to C04
+				vals := map[string]float64{}
+				for _, e := range choice.Result {
+					vals[e.Alternative.Id] = e.Value()
+				}
+				o.Corr(m, L(A("utility-values"), dmpSX(cap.got)), okSX(L(A("ok"), KMapF(vals))))
 				// every reported value = formula on the state that reached Evaluate (unrounded value recomputed by Go's exported function is not available; use the reported rounded one)
 				for _, e := range choice.Result {
 					var a *model.AlternativeWithCriteria
